@@ -349,8 +349,8 @@ def gsvdFit (F : Fn α) (nRow nCol : Nat) (a : Mat α) (nnz : Nat) (p : GsvdPara
   .ok (gsvdPost F nRow nCol p k.toNat o.2.2.1 o.2.2.2.1 o.2.1 sol.1 sol.2.1 sol.2.2)
 
 /-- the checks of `predict`: `check_format`, `check_adjacency_vector`, `check_nonnegative` -/
-def predictRefused (nCol nVec len : Nat) (x : Mat α) (xnnz : Nat) : Bool :=
-  xnnz == 0 || len != nCol ||
+def predictRefused (nCol nVec len : Nat) (x : Mat α) : Bool :=
+  len != nCol ||
     (List.range nVec).any fun i => (List.range len).any fun j => decide (mget x i j < 0)
 
 /-- `GSVD.predict` once the input passed the checks -/
@@ -366,11 +366,11 @@ def gsvdPredictCore (F : Fn α) (p : GsvdParams α) (nCol : Nat) (sv : Vec α) (
   let ev := mkMat nVec kk fun i c => (vget diagRow i * mget proj i c) / F.pow (vget sv c) p.factorSingular
   if p.normalized then normalize2 F nVec kk ev else ev
 
-/-- `GSVD.predict(adjacency_vectors)` for `nVec` vectors of length `len` (rows of `x`), `xnnz` stored
-    entries; the fitted state is `(singular_values_, singular_vectors_right_, weights_col_)` and `nCol`. -/
+/-- `GSVD.predict(adjacency_vectors)` for `nVec` vectors of length `len` (rows of `x`; a vector without
+    non-zero entry is accepted); the fitted state is `(singular_values_, singular_vectors_right_, weights_col_)` and `nCol`. -/
 def gsvdPredict (F : Fn α) (p : GsvdParams α) (nCol : Nat) (sv : Vec α) (right : Mat α) (weightsCol : Vec α)
-    (nVec len : Nat) (x : Mat α) (xnnz : Nat) : Except PyErr (Mat α) :=
-  if predictRefused nCol nVec len x xnnz then .error .valueError
+    (nVec len : Nat) (x : Mat α) : Except PyErr (Mat α) :=
+  if predictRefused nCol nVec len x then .error .valueError
   else .ok (gsvdPredictCore F p nCol sv right weightsCol nVec x)
 
 /-- `means_col = Aᵀ1 / n_row` -/
@@ -415,8 +415,8 @@ def pcaPredictCore (F : Fn α) (normalized : Bool) (nCol : Nat) (sv : Vec α) (r
   if normalized then normalize2 F nVec kk ev else ev
 
 def pcaPredict (F : Fn α) (normalized : Bool) (nCol : Nat) (sv : Vec α) (right : Mat α) (mean : Vec α)
-    (nVec len : Nat) (x : Mat α) (xnnz : Nat) : Except PyErr (Mat α) :=
-  if predictRefused nCol nVec len x xnnz then .error .valueError
+    (nVec len : Nat) (x : Mat α) : Except PyErr (Mat α) :=
+  if predictRefused nCol nVec len x then .error .valueError
   else .ok (pcaPredictCore F normalized nCol sv right mean nVec x)
 
 /-! ### random_projection.py -/
